@@ -97,6 +97,11 @@ def judge(ctx, weaker, stronger, prems, conc, record=True):
     bad = [(c, r) for c, r in sr if r.outcome == 'refuted']
     if bad:
         key, why = proofcheck.explain_conflict(ctx.rng('r1'), wvalid[0], bad[0])
+        if key.startswith('unexplained'):
+            # R1 can fault neither verdict: each logic is right by its own semantics, so what
+            # fails is the declaration that one extends the other
+            key = 'declared-pair-does-not-hold|%s->%s' % (weaker, stronger)
+            why = 'R1 can fault neither verdict within its bounds: the declared extension itself does not hold for this argument'
         spec = dict(weaker=weaker, stronger=stronger, prems=[lexgen.to_json(p) for p in prems], conc=lexgen.to_json(conc), argstr=arg)
         ctx.violation(ID + '/extension', 'extension|' + key,
             '%s proves %s but its declared extension %s refutes it; %s' % (weaker, arg, stronger, why), spec)
